@@ -13,6 +13,8 @@ import sys
 
 VERIF_DIR = os.path.dirname(os.path.dirname(os.path.abspath(__file__)))
 REPO = os.path.abspath(os.environ.get("VERIF_REPO", "/repo"))
+# evidence/ and replays/ go under OUT_DIR (mutant experiments redirect them to a scratch dir)
+OUT_DIR = os.path.abspath(os.environ.get("LEAGUESIM_OUT", VERIF_DIR))
 
 MODEL_NAMES = [
     "PlackettLuce",
@@ -29,16 +31,33 @@ class HarnessError(Exception):
     """Something is wrong with the harness or its environment - never a VIOLATION."""
 
 
-def load_openskill():
-    """Import the library from VERIF_REPO's working tree (never from a stale install)."""
+def _setup_pycache():
+    """Compiled files go to a scratch prefix (never into the repository), so that re-importing
+    the library - done before every run - costs milliseconds."""
+    pre = os.environ.get("LEAGUESIM_PYC")
+    if pre:
+        sys.pycache_prefix = pre
+        sys.dont_write_bytecode = False
+    else:
+        sys.dont_write_bytecode = True
+
+
+def _lib_keys():
+    return [k for k in sys.modules if k == "openskill" or k.startswith("openskill.")]
+
+
+def load_openskill(fresh=False):
+    """Import the library from VERIF_REPO's working tree (never from a stale install).
+    fresh=True forgets any earlier import first: module globals, class dictionaries, function
+    defaults and caches all start pristine."""
     global _openskill
-    if _openskill is not None:
+    if _openskill is not None and not fresh:
         return _openskill
-    sys.dont_write_bytecode = True
+    _setup_pycache()
     if REPO in sys.path:
         sys.path.remove(REPO)
     sys.path.insert(0, REPO)
-    for k in [k for k in sys.modules if k == "openskill" or k.startswith("openskill.")]:
+    for k in _lib_keys():
         del sys.modules[k]
     import openskill  # noqa
 
@@ -48,15 +67,40 @@ def load_openskill():
     if not path.startswith(REPO + os.sep):
         raise HarnessError("openskill imported from %s, expected under %s" % (path, REPO))
     _openskill = models
+    try:
+        import sched
+
+        sched._codes = None
+    except ImportError:
+        pass
     return models
+
+
+def fresh_models():
+    """A second, independent import of the library (its own module globals and caches) that
+    leaves the main copy in sys.modules untouched.  Used for pristine reference executions."""
+    load_openskill()
+    saved = {k: sys.modules.pop(k) for k in _lib_keys()}
+    try:
+        import openskill.models as m  # noqa
+
+        return m
+    finally:
+        for k in _lib_keys():
+            del sys.modules[k]
+        sys.modules.update(saved)
+
+
+def reload_library():
+    return load_openskill(fresh=True)
 
 
 def pkg_dir():
     return os.path.join(REPO, "openskill") + os.sep
 
 
-def model_class(name):
-    return getattr(load_openskill(), name)
+def model_class(name, lib=None):
+    return getattr(lib if lib is not None else load_openskill(), name)
 
 
 def library_modules():
